@@ -58,6 +58,7 @@ func (mapVacuum *MapVacuum[K, V]) VacuumKey(keyToVacuum K) {
 
 	if !mapVacuum.active {
 		mapVacuum.active = true
+		verifhook.Point("vacuum.start", "name", mapVacuum.name)
 		mapVacuum.vacuumInBackground()
 		log.Trace().
 			Msgf("vacuum (%s) turned on and will run in the background",
